@@ -264,11 +264,9 @@ class Explorer:
             import cvc5
         except ImportError:
             return
-        cons = []
-        for c in self.constraints:
-            cg = self.groups.get(c.get_id())
-            if cg is None or cg == group:
-                cons.append(c)
+        # the FULL constraint set: a verdict obtained from the group-sliced query also holds for the full set (more
+        # constraints), while a verdict obtained only by the full re-check (sliced query sat) does not hold for the slice
+        cons = list(self.constraints)
         zs = z3.Solver()
         zs.add(*cons)
         zs.add(*extra)
